@@ -62,6 +62,21 @@ def gen(rng, tier):
         dl = dict(TSTEP=src['nt'], LAY=src['nl'], ROW=src['nr'], COL=src['nc'])
         ds = rng.sample(sorted(dl), rng.randint(1, 3))
         out.append(dict(src=src, recipes=[], ops=[['slice', [[d, _win(rng, dl[d])] for d in ds]]]))
+    # the corners of the integer selectors, in every run: the last record counted from the end (the window [-1:0] is
+    # empty, [-1:] is not), the first counted from the end, and numpy integers on both horizontal axes at once
+    for j in range(12):
+        sd, st = rng.choice(STARTS)
+        src = dict(kind='arrays', nt=rng.randint(2, 5), nl=rng.randint(1, 3), nr=rng.randint(2, 4), nc=rng.randint(2, 4),
+                   nv=rng.randint(1, 2), sdate=sd, stime=st, tstep=rng.choice([10000, 3000, 240000, 60000]),
+                   lv=sorted(rng.sample(range(0, 65), 5), reverse=rng.random() < 0.7), withcf=False)
+        np_ = ['np'] if j % 2 else []
+        if j < 4:
+            kw = [['TSTEP', ['i', [-1, -src['nt']][j // 2]] + np_]]
+        elif j < 8:
+            kw = [['ROW', ['i', rng.randrange(-src['nr'], src['nr']), 'np']], ['COL', ['i', rng.randrange(-src['nc'], src['nc']), 'np']]]
+        else:
+            kw = [['TSTEP', ['i', -1] + np_], [['LAY', 'ROW', 'COL'][j % 3], ['i', -1] + np_]]
+        out.append(dict(src=src, recipes=[], ops=[['slice', kw]]))
     return out
 
 
@@ -85,7 +100,7 @@ def impl(case):
         res['out_geo'] = [float(g.XORIG), float(g.YORIG), float(g.XCELL), float(g.YCELL)]
         res['out_vg'] = [float(x) for x in np.atleast_1d(g.VGLVLS)]
         res['out_attr'] = [int(g.SDATE), int(g.STIME), int(g.TSTEP)]
-        res['out_dims'] = {k: len(g.dimensions[k]) for k in ('TSTEP', 'LAY', 'ROW', 'COL')}
+        res['out_dims'] = {k: (len(g.dimensions[k]) if k in g.dimensions else -1) for k in ('TSTEP', 'LAY', 'ROW', 'COL')}
         res['nvars'] = [int(f.NVARS), int(g.NVARS)]
         return res
 
